@@ -18,10 +18,23 @@ def final_pair(node):
     """Roles of the two containers a function returns, read from its last `return (A', B')` (through one temporary): each element is
     `C`, `C or None`, `C if C else None` or `C if F else None`; -> [(container name, flag name or None), (…)] or None."""
     import ast
-    last = None
-    for st in node.body:
-        if isinstance(st, ast.Return) and st.value is not None:
-            last = st
+
+    def last_return(stmts):
+        # the return reached when no early exit is taken: the last statement, looking through a trailing if/else chain's else-arm
+        for st in reversed(stmts):
+            if isinstance(st, ast.Return) and st.value is not None:
+                return st
+            if isinstance(st, ast.If) and st.orelse:
+                r = last_return(st.orelse)
+                if r is not None:
+                    return r
+            break
+        return None
+    last = last_return(node.body)
+    if last is None:
+        for st in node.body:
+            if isinstance(st, ast.Return) and st.value is not None:
+                last = st
     if last is None:
         return None
     v = last.value
